@@ -4,7 +4,7 @@
      content/limitedstorage.go LimitedStorage.Push
      internal/cas/memory.go   Memory.Push / Exists / Fetch
      content/oci/storage.go   Storage.Push (stat, ingest temp, verify, rename)
-     content/file/file.go     Store.push / pushFile / saveFile (named) and the fallback
+     content/file/file.go     Store.push / pushFile / saveFile (named; a failed push removes its file) and the fallback
    together with the pieces of the Go standard library they are built from
    (io.LimitedReader, io.TeeReader, io.ReadFull = io.ReadAtLeast, io.CopyBuffer).
 
@@ -328,8 +328,8 @@ Section WithH.
     else (None, match oci_get s (d_dg d) with Some _ => true | None => false end).
 
   (* ---------------------------------------------------------------- file.Store *)
-  (* f_files: what is on disk under each name (a failed push leaves its partial
-     file behind); f_names: nameStatus.exists; f_d2p: digestToPath; f_fb: fallback *)
+  (* f_files: what is on disk under each name (a failed push removes its partial
+     file); f_names: nameStatus.exists; f_d2p: digestToPath; f_fb: fallback *)
   Record fstore := mkFs { f_files : list (str * str); f_names : list str;
                           f_d2p : list (str * str); f_fb : mem }.
 
@@ -344,6 +344,9 @@ Section WithH.
   Definition assoc_set (l : list (str * str)) (k v : str) : list (str * str) :=
     (k, v) :: filter (fun p => negb (str_eqb (fst p) k)) l.
 
+  Definition assoc_del (l : list (str * str)) (k : str) : list (str * str) :=
+    filter (fun p => negb (str_eqb (fst p) k)) l.
+
   Definition file_bufsz : nat := 32768.
 
   Definition file_push (fuel : nat) (s : fstore) (name : str) (d : desc) (evs : list ev)
@@ -357,7 +360,9 @@ Section WithH.
         else
           match copy_buffer fuel (mkBase evs None) file_bufsz (d_dg d) (d_sz d) with
           | ((Some e, out), _) =>
-              (Some e, mkFs (assoc_set (f_files s) name out) (f_names s) (f_d2p s) (f_fb s))
+              (* pushFile removes the partially written file again (os.Create truncated
+                 whatever was there) *)
+              (Some e, mkFs (assoc_del (f_files s) name) (f_names s) (f_d2p s) (f_fb s))
           | ((None, out), _) =>
               (None, mkFs (assoc_set (f_files s) name out) (name :: f_names s)
                           (assoc_set (f_d2p s) (d_dg d) name) (f_fb s))
@@ -474,4 +479,105 @@ Section Histories.
   (* files under ingest/ at this instant *)
   Definition ingest_files (st : cstate) : list str :=
     flat_map (fun t => match t_pc t with PIngest w _ _ => [w] | _ => [] end) (c_thr st).
+
+  (* all terminal states reachable from [st] when every Write step takes the whole
+     remainder (n = big): the Writes only touch the thread's own ingest file, so the
+     order of the Stat and Rename/Remove steps is what matters *)
+  Fixpoint explore (fuel : nat) (big : nat) (st : cstate) : list cstate :=
+    match fuel with
+    | O => []
+    | S f =>
+        let nexts := flat_map (fun i => match cstep st i big with Some st' => [st'] | None => [] end)
+                              (seq 0 (length (c_thr st))) in
+        match nexts with
+        | [] => [st]
+        | _ => flat_map (explore f big) nexts
+        end
+    end.
+
+  (* what an observer sees of a state: each thread's result and the blobs by digest *)
+  Fixpoint visible_blobs (seen : list str) (s : oci) : oci :=
+    match s with
+    | [] => []
+    | (k, v) :: r => if existsb (str_eqb k) seen then visible_blobs seen r
+                     else (k, v) :: visible_blobs (k :: seen) r
+    end.
+
+  Definition thread_results (st : cstate) : list (option (option rerr)) :=
+    map (fun t => match t_pc t with PDone r => Some r | _ => None end) (c_thr st).
 End Histories.
+
+(* ------------------------------------------------------------------ cas.Proxy *)
+(* Proxy.Fetch with a cas.Memory cache, optionally behind LimitedStorage
+   (NewProxyWithLimit).  The caller is a list of Read sizes followed by Close.  The
+   io.Pipe between the TeeReader and the cache push is synchronous, so the
+   session is deterministic: the push sees the caller's non-empty reads as the
+   chunks of its reader and EOF at Close; a Write succeeds iff the push (or, after a
+   successful push, the drain loop) consumed all of it, otherwise it returns the
+   consumed prefix together with the push error (pr.CloseWithError). *)
+Section Proxy.
+  Variable H : str -> str -> str.
+
+  (* what cas.Memory.Fetch hands out: a bytes.Reader *)
+  Definition serve_script (bs : str) : list ev := match bs with [] => [] | _ => [Data bs] end.
+
+  Fixpoint rc_reads (comb : bool) (evs : list ev) (ks : list nat) : list rres :=
+    match ks with
+    | [] => []
+    | k :: r => let '(res, evs') := script_read comb evs k in res :: rc_reads comb evs' r
+    end.
+
+  Definition nonempty (s : str) : bool := match s with [] => false | _ => true end.
+  Definition writes_of (rs : list rres) : list str := filter nonempty (map fst rs).
+
+  (* Cache.Push(target, pipe reader): result, new cache, bytes taken from the pipe *)
+  Definition cache_push (limit : option Z) (m : mem) (d : desc) (ws : list str) : (option rerr * mem) * nat :=
+    let evs := map Data ws in
+    let fuel := S (S (S (ev_weight evs))) in
+    let inner (lim : option Z) :=
+      match mem_get m d with
+      | Some _ => ((Some EExists, m), 0%nat)
+      | None =>
+          let '((e, buf), v) := read_all H false true fuel (mkBase evs lim) (d_dg d) (d_sz d) in
+          let c := (length (stream evs) - length (stream (b_evs (v_base v))))%nat in
+          match e with
+          | Some e0 => ((Some e0, m), c)
+          | None => ((None, (d, buf) :: m), c)
+          end
+      end in
+    match limit with
+    | Some l => if (d_sz d >? l)%Z then ((Some ETooBig, m), 0%nat) else inner (Some (d_sz d))
+    | None => inner None
+    end.
+
+  (* what the TeeReader returns for each Read of the caller *)
+  Fixpoint tee_results (perr : option rerr) (c off : nat) (rs : list rres) : list rres :=
+    match rs with
+    | [] => []
+    | (bs, e) :: r =>
+        match bs with
+        | [] => (bs, e) :: tee_results perr c off r
+        | _ =>
+            let off' := (off + length bs)%nat in
+            match perr with
+            | None => (bs, e) :: tee_results perr c off' r
+            | Some pe =>
+                if (off' <=? c)%nat then (bs, e) :: tee_results perr c off' r
+                else (firstn (c - off) bs, Some pe) :: tee_results perr c off' r
+            end
+        end
+    end.
+
+  (* one Fetch + reads + Close: (results of the reads, result of Close, cache afterwards) *)
+  Definition proxy_fetch (limit : option Z) (stop : bool) (m : mem) (d : desc)
+             (comb : bool) (evs : list ev) (ks : list nat) : (list rres * option rerr) * mem :=
+    match mem_get m d with
+    | Some bs => ((rc_reads false (serve_script bs) ks, None), m)
+    | None =>
+        if stop then ((rc_reads comb evs ks, None), m)
+        else
+          let rs := rc_reads comb evs ks in
+          let '((pe, m'), c) := cache_push limit m d (writes_of rs) in
+          ((tee_results pe c 0 rs, pe), m')
+    end.
+End Proxy.
